@@ -16,11 +16,21 @@ pub struct TriviaCfg {
     pub empty_line_comment: bool,
     pub uppercase_true: bool,
     pub non_ascii: bool,
+    /// slot ids that must not receive comments (triggers of recorded findings)
+    pub no_comment_slots: Vec<String>,
+    /// when non-empty: comments only in these slot ids
+    pub only_comment_slots: Vec<String>,
+    /// give every comment a unique serial number so that a lost comment identifies its slot
+    pub serial_comments: bool,
+    /// finding feature: two `key = value` pairs of a `.define` block on one line
+    pub config_pairs_same_line: bool,
+    /// finding feature: a block comment directly in front of a statement on the same line
+    pub comment_before_statement_same_line: bool,
 }
 
 impl TriviaCfg {
     pub fn clean() -> TriviaCfg {
-        TriviaCfg { vary: 35, comments: true, case_flips: true, crlf: true, multiline_block_comment: false, empty_line_comment: false, uppercase_true: false, non_ascii: false }
+        TriviaCfg { vary: 35, comments: true, case_flips: true, crlf: true, multiline_block_comment: false, empty_line_comment: false, uppercase_true: false, non_ascii: false, no_comment_slots: vec![], only_comment_slots: vec![], serial_comments: false, config_pairs_same_line: false, comment_before_statement_same_line: true }
     }
 }
 
@@ -34,6 +44,11 @@ pub struct RandFiller<'e> {
     pub features: BTreeSet<String>,
     /// use CRLF for every newline in this rendering
     all_crlf: bool,
+    comments_allowed: bool,
+    serial: usize,
+    /// (slot id, comment text) of every comment produced
+    pub placed: Vec<(String, String)>,
+    cur_slot: String,
 }
 
 const BLOCK_COMMENTS: &[&str] = &[
@@ -57,7 +72,7 @@ impl<'e> RandFiller<'e> {
     pub fn new(data: &'e [u32], cfg: TriviaCfg) -> Self {
         let mut e = Ent::new(data);
         let all_crlf = cfg.crlf && e.chance(1, 6);
-        RandFiller { e, cfg, slots_changed: 0, comments: 0, case_flips: 0, used_crlf: false, features: BTreeSet::new(), all_crlf }
+        RandFiller { e, cfg, slots_changed: 0, comments: 0, case_flips: 0, used_crlf: false, features: BTreeSet::new(), all_crlf, comments_allowed: true, serial: 0, placed: vec![], cur_slot: String::new() }
     }
 
     fn nl(&mut self) -> String {
@@ -69,7 +84,34 @@ impl<'e> RandFiller<'e> {
         }
     }
 
+    fn stamp(&mut self, c: String) -> String {
+        let c = if self.cfg.serial_comments {
+            self.serial += 1;
+            if c.starts_with("//") {
+                format!("{} n{}", c, self.serial)
+            } else if let Some(body) = c.strip_suffix("*/") {
+                format!("{}n{} */", body, self.serial)
+            } else {
+                c
+            }
+        } else {
+            c
+        };
+        self.placed.push((self.cur_slot.clone(), c.clone()));
+        c
+    }
+
     fn block_comment(&mut self) -> String {
+        let c = self.block_comment_raw();
+        self.stamp(c)
+    }
+
+    fn line_comment(&mut self) -> String {
+        let c = self.line_comment_raw();
+        self.stamp(c)
+    }
+
+    fn block_comment_raw(&mut self) -> String {
         self.comments += 1;
         if self.cfg.multiline_block_comment && self.e.chance(1, 2) {
             self.features.insert("multiline_block_comment".into());
@@ -82,7 +124,7 @@ impl<'e> RandFiller<'e> {
         (*self.e.pick(BLOCK_COMMENTS)).to_string()
     }
 
-    fn line_comment(&mut self) -> String {
+    fn line_comment_raw(&mut self) -> String {
         self.comments += 1;
         if self.cfg.empty_line_comment && self.e.chance(1, 2) {
             self.features.insert("empty_line_comment".into());
@@ -96,7 +138,7 @@ impl<'e> RandFiller<'e> {
     }
 
     fn single(&mut self, must: bool) -> String {
-        let k = self.e.below(if self.cfg.comments { 8 } else { 4 });
+        let k = self.e.below(if self.cfg.comments && self.comments_allowed { 8 } else { 4 });
         let s = match k {
             0 => " ".to_string(),
             1 => "  ".to_string(),
@@ -121,7 +163,7 @@ impl<'e> RandFiller<'e> {
         let parts = 1 + self.e.below(3);
         let mut has_nl = false;
         for _ in 0..parts {
-            match self.e.below(if self.cfg.comments { 6 } else { 3 }) {
+            match self.e.below(if self.cfg.comments && self.comments_allowed { 6 } else { 3 }) {
                 0 => {
                     s.push_str(&self.nl());
                     has_nl = true;
@@ -156,7 +198,18 @@ impl<'e> RandFiller<'e> {
 }
 
 impl<'e> Filler for RandFiller<'e> {
-    fn fill(&mut self, kind: SlotKind, _id: SlotId, canon: &str, _depth: usize) -> String {
+    fn kw(&mut self, s: &str) -> String {
+        self.kw_impl(s)
+    }
+
+    fn hex(&mut self, s: &str) -> String {
+        self.hex_impl(s)
+    }
+
+    fn fill(&mut self, kind: SlotKind, id: SlotId, canon: &str, _depth: usize) -> String {
+        self.cur_slot = id.to_string();
+        self.comments_allowed = !self.cfg.no_comment_slots.iter().any(|s| s == id)
+            && (self.cfg.only_comment_slots.is_empty() || self.cfg.only_comment_slots.iter().any(|s| s == id));
         let vary = self.e.below(100) < self.cfg.vary;
         if !vary {
             if self.all_crlf && canon.contains('\n') {
@@ -166,6 +219,30 @@ impl<'e> Filler for RandFiller<'e> {
             return canon.to_string();
         }
         self.slots_changed += 1;
+        let s = self.fill_kind(kind);
+        if matches!(id, "stmt-sep" | "file-start" | "block-open") {
+            let tail = s.rsplit('\n').next().unwrap_or("");
+            if tail.contains("/*") {
+                if self.cfg.comment_before_statement_same_line {
+                    self.features.insert("comment_before_statement_same_line".into());
+                } else {
+                    return format!("{}{}", s, self.nl());
+                }
+            }
+        }
+        if id == "config-key" && !s.contains('\n') {
+            if self.cfg.config_pairs_same_line {
+                self.features.insert("config_pairs_on_one_line".into());
+            } else {
+                return format!("{}{}", s, self.nl());
+            }
+        }
+        s
+    }
+}
+
+impl<'e> RandFiller<'e> {
+    fn fill_kind(&mut self, kind: SlotKind) -> String {
         match kind {
             SlotKind::Single => self.single(false),
             SlotKind::SingleReq => {
@@ -194,7 +271,10 @@ impl<'e> Filler for RandFiller<'e> {
         }
     }
 
-    fn kw(&mut self, s: &str) -> String {
+}
+
+impl<'e> RandFiller<'e> {
+    pub fn kw_impl(&mut self, s: &str) -> String {
         if !self.cfg.case_flips {
             return s.to_string();
         }
@@ -222,7 +302,7 @@ impl<'e> Filler for RandFiller<'e> {
         }
     }
 
-    fn hex(&mut self, s: &str) -> String {
+    pub fn hex_impl(&mut self, s: &str) -> String {
         if self.cfg.case_flips && self.e.chance(1, 3) {
             self.case_flips += 1;
             s.to_uppercase()
